@@ -169,6 +169,13 @@ def build_fs(args):
         rec(lambda: DaughtersDict(dict(m)))
         rec(lambda: DecayMode(0.5, " ".join(fl)).daughters)
         rec(lambda: DecayMode.from_dict({"bf": 0.5, "fs": list(fl)}).daughters)
+        # the dictionary form with the final state in the other forms the constructor reads
+        rec(lambda: DecayMode.from_dict({"bf": 0.5, "fs": tuple(fl)}).daughters)
+        rec(lambda: DecayMode.from_dict({"bf": 0.5, "fs": dict(m), "model": "PHSP"}).daughters)
+        rec(lambda: DecayMode.from_dict({"bf": 0.5, "fs": " ".join(fl)}).daughters)
+        rec(lambda: DecayMode.from_dict({"bf": 0.5, "fs": DaughtersDict(list(fl))}).daughters)
+        rec(lambda: DecayMode(0.5, fs=list(fl)).daughters)
+        rec(lambda: DecayMode(bf=0.5, daughters=DaughtersDict(dict(m))).daughters)
         ids = [t["evt"][x]["id"] for x in fl]
         rec(lambda: DecayMode.from_pdgids(0.5, ids).daughters)
         rec(lambda: DecayMode.from_pdgids(0.5, tuple(ids)).daughters)
